@@ -95,6 +95,28 @@ pub fn gen_pure(args: &Args) {
     ] {
         texts.push(t.to_string());
     }
+    // computations at the edges of the integer range and of the machine's limits: where a build profile
+    // (overflow checks, debug assertions) could make a difference
+    let edges = ["1152921504606846975", "(-1152921504606846975 - 1)", "(-1)", "2", "2147483648", "1073741824"];
+    for a in edges {
+        for b in edges {
+            for op in ["+", "-", "*", "/", "%"] {
+                texts.push(format!("{a} {op} {b}"));
+            }
+        }
+        texts.push(format!("-{a}"));
+        texts.push(format!("stel v = {a}; -v"));
+        texts.push(format!("functie f(x) {{ -x }} f({a})"));
+        texts.push(format!("functie f(x) {{ x * 2 }} f({a})"));
+        texts.push(format!("float({a})"));
+        texts.push(format!("int(float({a}) * 2.0)"));
+        texts.push(format!("[1, 2][{a}]"));
+        texts.push(format!("\"ab\"[{a}]"));
+    }
+    for t in ["int(\"1152921504606846976\")", "int(\"-1152921504606846977\")", "int(1e300)", "int(0.0 / 0.0)", "1152921504606846976",
+              "functie r(n) { r(n + 1) } r(0)"] {
+        texts.push(t.to_string());
+    }
     let mut rng = StdRng::seed_from_u64(seed ^ 0xfeed);
     match ctx.as_str() {
         "baseline" => {
